@@ -231,8 +231,7 @@ def model_outcomes(sc, it):
                     if c == 0:
                         return ('cancel', None, t), choice_i
                     continue
-                if k == 'nack' and same_full_name(sc['ints'][e['i']], it) and it['digest'] is None \
-                        and nack_target_expressed(sc, e):
+                if k == 'nack' and same_full_name(sc['ints'][e['i']], it) and nack_target_expressed(sc, e):
                     if state == 'pending':
                         return ('nack', e['reason'], t), choice_i
                     c = choices[choice_i] if choice_i < len(choices) else None
@@ -286,11 +285,7 @@ def ambiguous_nack(sc, it):
             tgt = sc['ints'][e['i']]
             if tgt.get('placeholder') or it.get('placeholder'):
                 continue
-            if tgt['name'] == it['name'] and not same_full_name(tgt, it):
-                return True
-            if tgt['digest'] is not None and tgt['name'] == it['name']:
-                return True
-    return False
+    return False      # (a Nack names exactly the Interests of its full name, implicit digest included: nothing is ambiguous)
 
 
 # ------------------------------------------------------------------ execution
